@@ -169,6 +169,30 @@ func pathConds(fd *ast.FuncDecl, target ast.Node) []pcond {
 			out = append(out, earlyExitConds(p.List, child)...)
 		case *ast.CaseClause:
 			out = append(out, earlyExitConds(p.Body, child)...)
+			// a tagless switch is an if / else-if chain: the matched case holds, the earlier ones do not
+			if sw, ok := enclosingSwitch(i).(*ast.SwitchStmt); ok && sw.Tag == nil {
+				for _, cl := range sw.Body.List {
+					cc := cl.(*ast.CaseClause)
+					if cc == p {
+						break
+					}
+					for _, e := range cc.List {
+						out = append(out, splitCond(e, false)...)
+					}
+				}
+				if len(p.List) == 1 {
+					out = append(out, splitCond(p.List[0], true)...)
+					continue
+				}
+				if len(p.List) == 0 { // default: every case is false
+					for _, cl := range sw.Body.List {
+						for _, e := range cl.(*ast.CaseClause).List {
+							out = append(out, splitCond(e, false)...)
+						}
+					}
+					continue
+				}
+			}
 			if len(p.List) > 0 {
 				var names []string
 				for _, e := range p.List {
@@ -187,7 +211,78 @@ func pathConds(fd *ast.FuncDecl, target ast.Node) []pcond {
 			}
 		}
 	}
+	return expandBoolLocals(fd, out, 3)
+}
+
+// expandBoolLocals replaces a condition that is a local boolean variable assigned exactly once, from a boolean
+// expression (`isMerged := field.Embedded() && jsonName == ""`), by the conditions of that expression.
+func expandBoolLocals(fd *ast.FuncDecl, conds []pcond, depth int) []pcond {
+	if depth == 0 {
+		return conds
+	}
+	var out []pcond
+	changed := false
+	for _, c := range conds {
+		id, ok := c.expr.(*ast.Ident)
+		if !ok || id.Obj == nil && id.Name == "" {
+			out = append(out, c)
+			continue
+		}
+		var defs []ast.Expr
+		n := 0
+		ast.Inspect(fd, func(x ast.Node) bool {
+			as, ok := x.(*ast.AssignStmt)
+			if !ok {
+				return true
+			}
+			for i, l := range as.Lhs {
+				if lid, ok := l.(*ast.Ident); ok && lid.Name == id.Name && sameDecl(lid, id) {
+					n++
+					if len(as.Lhs) == len(as.Rhs) {
+						defs = append(defs, as.Rhs[i])
+					} else {
+						defs = append(defs, nil) // comma-ok / tuple: not a boolean expression of its own
+					}
+				}
+			}
+			return true
+		})
+		if n != 1 || len(defs) != 1 || defs[0] == nil {
+			out = append(out, c)
+			continue
+		}
+		switch d := ast.Unparen(defs[0]).(type) {
+		case *ast.BinaryExpr, *ast.UnaryExpr, *ast.CallExpr:
+			if be, ok := d.(*ast.BinaryExpr); ok {
+				switch be.Op.String() {
+				case "&&", "||", "==", "!=", "<", "<=", ">", ">=":
+				default:
+					out = append(out, c)
+					continue
+				}
+			}
+			for _, sc := range splitCond(defs[0], c.truth) {
+				sc.loop, sc.exit = c.loop, c.exit
+				out = append(out, sc)
+			}
+			changed = true
+		default:
+			out = append(out, c)
+		}
+	}
+	if changed {
+		return expandBoolLocals(fd, out, depth-1)
+	}
 	return out
+}
+
+// sameDecl: two identifiers resolved by the parser to the same declaration (go/ast objects), or, when object
+// resolution is off, identifiers of the same name.
+func sameDecl(a, b *ast.Ident) bool {
+	if a.Obj != nil && b.Obj != nil {
+		return a.Obj == b.Obj
+	}
+	return a.Name == b.Name
 }
 
 func initConds(init ast.Stmt, cond ast.Expr, truth bool) []pcond { return nil }
@@ -240,6 +335,63 @@ func condSet(info *types.Info, conds []pcond, subst map[types.Object]string) []s
 	}
 	sort.Strings(out)
 	return uniqStr(out)
+}
+
+// condSetN is condSet with comparisons in a canonical form, so that `if a == b {} else {exit}`, `if a != b {exit}`
+// and `if !(a == b) {exit}` render alike: `!=` is the negation of `==` (operands sorted), `>`/`>=` are `<`/`<=` with
+// the operands swapped, and a negated ordering is the opposite ordering.
+func condSetN(info *types.Info, conds []pcond, subst map[types.Object]string) []string {
+	var out []string
+	for _, c := range conds {
+		out = append(out, normCond(info, c, subst))
+	}
+	sort.Strings(out)
+	return uniqStr(out)
+}
+
+func normCond(info *types.Info, c pcond, subst map[types.Object]string) string {
+	neg := func(s string, truth bool) string {
+		if truth {
+			return s
+		}
+		return "!(" + s + ")"
+	}
+	if c.expr == nil {
+		return neg(c.text, c.truth)
+	}
+	be, ok := ast.Unparen(c.expr).(*ast.BinaryExpr)
+	if !ok {
+		return neg(render(info, c.expr, subst), c.truth)
+	}
+	x, y := render(info, be.X, subst), render(info, be.Y, subst)
+	truth := c.truth
+	op := be.Op
+	switch op {
+	case token.NEQ:
+		op, truth = token.EQL, !truth
+	case token.GTR:
+		op, x, y = token.LSS, y, x
+	case token.GEQ:
+		op, x, y = token.LEQ, y, x
+	}
+	switch op {
+	case token.EQL:
+		if y < x {
+			x, y = y, x
+		}
+		return neg(x+" == "+y, truth)
+	case token.LSS:
+		if !truth {
+			return y + " <= " + x
+		}
+		return x + " < " + y
+	case token.LEQ:
+		if !truth {
+			return y + " < " + x
+		}
+		return x + " <= " + y
+	}
+	return neg(render(info, c.expr, subst), c.truth)
 }
 
 // ---------- struct-field loops ----------
@@ -455,3 +607,378 @@ func setEq(a, b []string) bool {
 }
 
 func fnPos(w *World, fi *FuncInfo) string { return w.Pos(fi.Decl.Pos()) }
+
+// accum is one statement that adds an element to a collection inside a loop: `xs = append(xs, v…)`, or a store
+// `xs[i] = v` into a slice pre-sized to the ranged collection (`xs := make([]T, len(R))` with i the range index over
+// R), which produces the same slice as the append when it is reached on every iteration.
+type accum struct {
+	stmt   *ast.AssignStmt
+	target string // rendered collection
+	values []ast.Expr
+	sized  bool // the pre-sized form
+}
+
+func accumStmts(info *types.Info, fd *ast.FuncDecl, rs *ast.RangeStmt) []accum {
+	var out []accum
+	for _, as := range appendStmts(info, rs.Body, "") {
+		out = append(out, accum{stmt: as, target: es(as.Lhs[0]), values: as.Rhs[0].(*ast.CallExpr).Args[1:]})
+	}
+	key := identOf(rs.Key)
+	if key == nil || key.Name == "_" {
+		return out
+	}
+	keyObj := objOf(info, key)
+	ast.Inspect(rs.Body, func(x ast.Node) bool {
+		as, ok := x.(*ast.AssignStmt)
+		if !ok || len(as.Lhs) != 1 || len(as.Rhs) != 1 || as.Tok != token.ASSIGN {
+			return true
+		}
+		ix, ok := as.Lhs[0].(*ast.IndexExpr)
+		if !ok || identOf(ix.Index) == nil || objOf(info, identOf(ix.Index)) != keyObj || identOf(ix.X) == nil {
+			return true
+		}
+		if presizedTo(info, fd, objOf(info, identOf(ix.X)), rs.X) {
+			out = append(out, accum{stmt: as, target: es(ix.X), values: as.Rhs, sized: true})
+		}
+		return true
+	})
+	sort.Slice(out, func(i, j int) bool { return out[i].stmt.Pos() < out[j].stmt.Pos() })
+	return out
+}
+
+// presizedTo: v is defined once, by `make([]T, len(R))` with R the ranged expression.
+func presizedTo(info *types.Info, fd *ast.FuncDecl, v types.Object, ranged ast.Expr) bool {
+	n, good := 0, false
+	ast.Inspect(fd.Body, func(x ast.Node) bool {
+		var lhs, rhs []ast.Expr
+		switch d := x.(type) {
+		case *ast.AssignStmt:
+			lhs, rhs = d.Lhs, d.Rhs
+		case *ast.ValueSpec: // var xs = make(…)
+			for _, nm := range d.Names {
+				lhs = append(lhs, nm)
+			}
+			rhs = d.Values
+		default:
+			return true
+		}
+		for i, l := range lhs {
+			id := identOf(l)
+			if id == nil || objOf(info, id) != v {
+				continue
+			}
+			n++
+			if len(lhs) != len(rhs) {
+				continue
+			}
+			call, ok := ast.Unparen(rhs[i]).(*ast.CallExpr)
+			if !ok || !isBuiltinCall(info, call, "make") || len(call.Args) != 2 {
+				continue
+			}
+			ln, ok := ast.Unparen(call.Args[1]).(*ast.CallExpr)
+			if ok && isBuiltinCall(info, ln, "len") && es(ln.Args[0]) == es(ranged) {
+				good = true
+			}
+		}
+		return true
+	})
+	return n == 1 && good
+}
+
+// reachConds renders (canonically, see condSetN) the conditions under which target is reached within one iteration
+// of the loop rs: enclosing branches and the negations of earlier early exits inside the loop body. The guard-first
+// form `if !c { continue }; use` and the nested form `if c { use }` give the same set.
+func reachConds(info *types.Info, fd *ast.FuncDecl, rs *ast.RangeStmt, target ast.Node, subst map[types.Object]string) []string {
+	// variables bound by the init of an if (`if _, isGuard := c.IsSQLGuard(); isGuard`) stand for what they are bound to
+	local := map[types.Object]string{}
+	for k, v := range subst {
+		local[k] = v
+	}
+	ast.Inspect(rs.Body, func(x ast.Node) bool {
+		is, ok := x.(*ast.IfStmt)
+		if !ok {
+			return true
+		}
+		if as, ok := is.Init.(*ast.AssignStmt); ok && as.Tok == token.DEFINE && len(as.Rhs) == 1 {
+			rhs := render(info, as.Rhs[0], subst)
+			for i, l := range as.Lhs {
+				if id := identOf(l); id != nil && id.Name != "_" && info.Defs[id] != nil {
+					suffix := ""
+					if len(as.Lhs) > 1 {
+						suffix = "#" + string(rune('0'+i))
+					}
+					local[info.Defs[id]] = rhs + suffix
+				}
+			}
+		}
+		return true
+	})
+	subst = local
+	var inner []pcond
+	for _, c := range pathConds(fd, target) {
+		if c.loop {
+			continue
+		}
+		if c.expr != nil && (c.expr.Pos() < rs.Body.Pos() || c.expr.Pos() > rs.Body.End()) {
+			// conditions outside the loop, except expansions of boolean locals (positioned at their definition):
+			// keep those whose definition lies inside the loop
+			continue
+		}
+		if c.expr == nil && c.clause != nil && (c.clause.Pos() < rs.Body.Pos() || c.clause.Pos() > rs.Body.End()) {
+			continue
+		}
+		inner = append(inner, c)
+	}
+	out := condSetN(info, inner, subst)
+	if out == nil {
+		out = []string{}
+	}
+	return out
+}
+
+// calleeClosure lists fi and the functions of its package that it reaches through statically resolved calls
+// (depth-bounded): a construct moved into an extracted helper is still found when rules look for it over the
+// closure instead of the one function body.
+func calleeClosure(w *World, fi *FuncInfo, depth int) []*FuncInfo {
+	seen := map[*FuncInfo]bool{fi: true}
+	out := []*FuncInfo{fi}
+	frontier := []*FuncInfo{fi}
+	for d := 0; d < depth; d++ {
+		var next []*FuncInfo
+		for _, f := range frontier {
+			if f.Decl == nil || f.Decl.Body == nil {
+				continue
+			}
+			ast.Inspect(f.Decl.Body, func(x ast.Node) bool {
+				call, ok := x.(*ast.CallExpr)
+				if !ok {
+					return true
+				}
+				if fn := calleeOf(f.Pkg.TypesInfo, call); fn != nil {
+					if cf := w.Funcs[fn]; cf != nil && cf.Pkg == fi.Pkg && !seen[cf] {
+						seen[cf] = true
+						out = append(out, cf)
+						next = append(next, cf)
+					}
+				}
+				return true
+			})
+		}
+		frontier = next
+	}
+	return out
+}
+
+// inlineLocals maps every local of fd that is defined exactly once, by `x := e` (one value), never re-assigned, with
+// e built from identifiers that are themselves never re-assigned, to the rendering of e (recursively): rules that
+// compare rendered expressions then see `gen.SQLTableName(ta.TableName())` whether or not it went through a
+// `tableName :=` local first.
+func inlineLocals(info *types.Info, fd *ast.FuncDecl) map[types.Object]string {
+	return inlineLocalsWith(info, fd, nil)
+}
+
+// inlineLocalsWith: inlineLocals on top of a given substitution (the parameters of a helper replaced by what a call
+// site passes).
+func inlineLocalsWith(info *types.Info, fd *ast.FuncDecl, base map[types.Object]string) map[types.Object]string {
+	defs := map[types.Object][]ast.Expr{}
+	writes := map[types.Object]int{}
+	ast.Inspect(fd.Body, func(x ast.Node) bool {
+		switch v := x.(type) {
+		case *ast.AssignStmt:
+			for i, l := range v.Lhs {
+				id := identOf(l)
+				if id == nil || id.Name == "_" {
+					continue
+				}
+				o := objOf(info, id)
+				if o == nil {
+					continue
+				}
+				writes[o]++
+				if v.Tok == token.DEFINE && len(v.Lhs) == len(v.Rhs) && info.Defs[id] != nil {
+					defs[o] = append(defs[o], v.Rhs[i])
+				}
+			}
+		case *ast.IncDecStmt:
+			if id := identOf(v.X); id != nil {
+				writes[objOf(info, id)]++
+			}
+		case *ast.RangeStmt:
+			// `for k, v := range` defines fresh variables, stable within one iteration (like parameters);
+			// `for k, v = range` writes existing ones
+			if v.Tok != token.DEFINE {
+				for _, e := range []ast.Expr{v.Key, v.Value} {
+					if id := identOf(e); id != nil {
+						writes[objOf(info, id)] += 2
+					}
+				}
+			}
+		case *ast.UnaryExpr:
+			if v.Op == token.AND {
+				if id := identOf(v.X); id != nil {
+					writes[objOf(info, id)] += 2 // address taken
+				}
+			}
+		}
+		return true
+	})
+	stable := func(e ast.Expr) bool {
+		ok := true
+		ast.Inspect(e, func(y ast.Node) bool {
+			switch v := y.(type) {
+			case *ast.FuncLit:
+				ok = false
+			case *ast.Ident:
+				if o, isVar := objOf(info, v).(*types.Var); isVar && !o.IsField() {
+					if w := writes[o]; w > 1 || (w == 1 && len(defs[o]) == 0) {
+						ok = false
+					}
+				}
+			}
+			return ok
+		})
+		return ok
+	}
+	out := map[types.Object]string{}
+	for k, v := range base {
+		out[k] = v
+	}
+	for round := 0; round < 4; round++ {
+		for o, ds := range defs {
+			if writes[o] != 1 || len(ds) != 1 || !stable(ds[0]) {
+				continue
+			}
+			out[o] = render(info, ds[0], out)
+		}
+	}
+	return out
+}
+
+// loopFilter returns the canonical conditions under which the loop rs adds an element to the collections it builds
+// (reachConds of its accumulation statements), whether all accumulations agree on them, and how many there are.
+func loopFilter(info *types.Info, fd *ast.FuncDecl, rs *ast.RangeStmt, subst map[types.Object]string) (conds []string, uniform bool, n int) {
+	uniform = true
+	for i, a := range accumStmts(info, fd, rs) {
+		c := reachConds(info, fd, rs, a.stmt, subst)
+		if i == 0 {
+			conds = c
+		} else if strings.Join(c, "&&") != strings.Join(conds, "&&") {
+			uniform = false
+		}
+		n++
+	}
+	return
+}
+
+// allAccums lists every accumulation statement of fd: appends anywhere, and pre-sized index stores of its range loops.
+func allAccums(info *types.Info, fd *ast.FuncDecl) []accum {
+	var out []accum
+	seen := map[*ast.AssignStmt]bool{}
+	for _, as := range appendStmts(info, fd.Body, "") {
+		seen[as] = true
+		out = append(out, accum{stmt: as, target: es(as.Lhs[0]), values: as.Rhs[0].(*ast.CallExpr).Args[1:]})
+	}
+	ast.Inspect(fd.Body, func(x ast.Node) bool {
+		if rs, ok := x.(*ast.RangeStmt); ok {
+			for _, a := range accumStmts(info, fd, rs) {
+				if a.sized && !seen[a.stmt] {
+					seen[a.stmt] = true
+					out = append(out, a)
+				}
+			}
+		}
+		return true
+	})
+	sort.Slice(out, func(i, j int) bool { return out[i].stmt.Pos() < out[j].stmt.Pos() })
+	return out
+}
+
+// textAccumTarget: st adds text to a string or builder — `x += e`, `x = x + e`, `b.WriteString(e)` / `b.Write*`,
+// `fmt.Fprint*(&b, …)` — and returns the rendering of x / b ("" otherwise).
+func textAccumTarget(info *types.Info, st ast.Stmt) string {
+	switch s := st.(type) {
+	case *ast.AssignStmt:
+		if len(s.Lhs) != 1 || len(s.Rhs) != 1 {
+			return ""
+		}
+		if s.Tok == token.ADD_ASSIGN {
+			return es(s.Lhs[0])
+		}
+		if be, ok := ast.Unparen(s.Rhs[0]).(*ast.BinaryExpr); ok && s.Tok == token.ASSIGN && be.Op == token.ADD && es(be.X) == es(s.Lhs[0]) {
+			return es(s.Lhs[0])
+		}
+	case *ast.ExprStmt:
+		call, ok := s.X.(*ast.CallExpr)
+		if !ok {
+			return ""
+		}
+		base := func(e ast.Expr) string {
+			e = ast.Unparen(e)
+			if u, ok := e.(*ast.UnaryExpr); ok && u.Op == token.AND {
+				e = ast.Unparen(u.X)
+			}
+			return es(e)
+		}
+		full := fullName(calleeOf(info, call))
+		switch {
+		case strings.HasPrefix(full, "(*strings.Builder).Write"), strings.HasPrefix(full, "(*bytes.Buffer).Write"):
+			return base(call.Fun.(*ast.SelectorExpr).X)
+		case strings.HasPrefix(full, "fmt.Fprint") && len(call.Args) > 0:
+			if t := info.TypeOf(call.Args[0]); t != nil && (strings.HasSuffix(t.String(), "strings.Builder") || strings.HasSuffix(t.String(), "bytes.Buffer")) {
+				return base(call.Args[0])
+			}
+		}
+	}
+	return ""
+}
+
+// ---------- conditions across one level of helper extraction ----------
+
+// pcondAt is a path condition together with the function it was read in.
+type pcondAt struct {
+	pcond
+	fn *FuncInfo
+}
+
+// interConds returns the conditions under which target (a node of cf) is reached when entered from root: when cf is
+// root itself, its own path conditions; when cf is a helper that root calls at exactly one site, the conditions of
+// that call site in root followed by the helper's own, with a map from the helper's parameters to the variables root
+// passes (identifier arguments only). ok is false when cf is neither root nor called exactly once from root.
+func interConds(w *World, root, cf *FuncInfo, target ast.Node) (conds []pcondAt, pmap map[types.Object]types.Object, ok bool) {
+	pmap = map[types.Object]types.Object{}
+	if cf == root {
+		for _, c := range pathConds(root.Decl, target) {
+			conds = append(conds, pcondAt{c, root})
+		}
+		return conds, pmap, true
+	}
+	info := root.Pkg.TypesInfo
+	var sites []*ast.CallExpr
+	ast.Inspect(root.Decl.Body, func(x ast.Node) bool {
+		if call, ok := x.(*ast.CallExpr); ok && calleeOf(info, call) == cf.Obj {
+			sites = append(sites, call)
+		}
+		return true
+	})
+	if len(sites) != 1 {
+		return nil, nil, false
+	}
+	for _, c := range pathConds(root.Decl, sites[0]) {
+		conds = append(conds, pcondAt{c, root})
+	}
+	k := 0
+	for _, f := range cf.Decl.Type.Params.List {
+		for _, nm := range f.Names {
+			if k < len(sites[0].Args) {
+				if id := identOf(sites[0].Args[k]); id != nil {
+					pmap[cf.Pkg.TypesInfo.Defs[nm]] = objOf(info, id)
+				}
+			}
+			k++
+		}
+	}
+	for _, c := range pathConds(cf.Decl, target) {
+		conds = append(conds, pcondAt{c, cf})
+	}
+	return conds, pmap, true
+}
